@@ -11,11 +11,21 @@ Configs ==
   \cup UNION {{Cfg("opn", r, p, m, kp[1], kp[2]) : r \in Roles, m \in {"Sign", "SignAndEncrypt"},
                                                   kp \in {k \in KeyPairs : k[1] \in KeyRange(p) /\ k[2] \in KeyRange(p)}} : p \in Policies}
 
-\* how many bytes of the chunk are kept after the security header in the shape "shorter-than-sig"
-Keeps(g, s) == IF s = "shorter-than-sig" THEN {0, 3, SymSig(g.pol) - 1} ELSE {0}
+\* OPN configurations that exist only for the padding size family (and its baseline, the valid chunk)
+PadConfigs ==
+  UNION {{Cfg("opn", r, p, m, kp[1], kp[2]) : r \in Roles, m \in {"Sign", "SignAndEncrypt"},
+                                              kp \in {k \in PadKeyPairs \ KeyPairs : k[1] \in KeyRange(p) /\ k[2] \in KeyRange(p)}} : p \in Policies}
 
-Cases == UNION {UNION {{[kind |-> g.kind, role |-> g.role, pol |-> g.pol, mode |-> g.mode, sbits |-> g.sbits, rbits |-> g.rbits,
-                         shape |-> s, keep |-> k, nrand |-> NRand] : k \in Keeps(g, s)} : s \in Shapes(g)} : g \in Configs}
+\* shape parameter: "shorter-than-sig": how many bytes of the chunk are kept after the security header;
+\*                  "pad-size": how many body bytes (all with the value of the padding size byte) precede the padding: 0 = a tiny chunk
+Keeps(g, s) == CASE s = "shorter-than-sig" -> {0, 3, SymSig(g.pol) - 1} [] s = "pad-size" -> {0, 96} [] OTHER -> {0}
+Psz(g, s) == IF s = "pad-size" THEN PadSizes(g) ELSE {""}
+
+CasesOf(G, Sh(_)) ==
+  UNION {UNION {{[kind |-> g.kind, role |-> g.role, pol |-> g.pol, mode |-> g.mode, sbits |-> g.sbits, rbits |-> g.rbits,
+                  shape |-> s, keep |-> k, psz |-> z, nrand |-> NRand] : k \in Keeps(g, s), z \in Psz(g, s)} : s \in Sh(g)} : g \in G}
+PadShapes(g) == {"valid", "pad-size"}
+Cases == CasesOf(Configs, Shapes) \cup CasesOf(PadConfigs, PadShapes)
 
 VARIABLE c
 Init == c \in Cases
